@@ -412,7 +412,8 @@ def worker(job):
         try:
             if tok is None: tok = KF.boot_tok(job['paths'], ck, cfg, d, backend=job.get('backend', 'file')); env = Env(tok, part, cfg)
             while todo:
-                sp = dict(todo[0]); rnd = random.Random(sp['seed']); pos = RUN[sp['fam']](env, sp, rnd); todo.pop(0)
+                sp = {k: (tuple(tuple(x) if isinstance(x, list) else x for x in v) if isinstance(v, list) else v) for k, v in todo[0].items()}      # lists -> tuples (specs read back from a replay file)
+                rnd = random.Random(sp['seed']); pos = RUN[sp['fam']](env, sp, rnd); todo.pop(0)
                 part.case((cfg,) + distinct_key(sp), nontrivial=bool(pos), sample=({'cfg': cfg, 'spec': {k: v for k, v in sp.items() if not k.startswith('_')}} if len(todo) % 61 == 0 else None)); part.count('cases_' + sp['fam'])
         except Died as ex:
             sp = todo.pop(0) if todo else None
@@ -492,7 +493,8 @@ def run(ctx):
     if getattr(ctx, 'replay', None):                  # ./check C13 --replay replays/C13/<hash>.json : re-run exactly that case
         import json, atexit; w = json.load(open(ctx.replay))['witness']; cfg = w.get('cfg', 'asan'); ctx.need(cfg)
         evp = os.path.join(os.path.dirname(os.path.abspath(__file__)), '..', 'evidence', 'C13.json'); old = open(evp, 'rb').read() if os.path.exists(evp) else None
-        if old is not None: atexit.register(lambda: open(evp, 'wb').write(old))      # a replay must not replace the evidence of the last real run; sp = {k: v for k, v in w['spec'].items() if not k.startswith('_')}
+        if old is not None: atexit.register(lambda: open(evp, 'wb').write(old))      # a replay must not replace the evidence of the last real run
+        sp = {k: v for k, v in w['spec'].items() if not k.startswith('_')}
         ctx.merge(worker(dict(ix=0, cfg=cfg, specs=[sp], paths=ctx.paths, hdr=ctx.paths[cfg]['hdr'], scratch=ctx.scratch))); return
     cfgs = ('asan',) if ctx.quick else ('asan', 'botan'); ctx.need(*cfgs); jobs = []
     for cfg in cfgs:
